@@ -3,89 +3,95 @@
 
    run c t        (id, kept, visible) for every entity of the source-file tree t after Project.correlate():
                   kept = still in the entity lists the pages are rendered from, visible = may be linked
-   selected c t   ids the property selects (Spec: container selected, permission in the display inherited
-                  from the project / enclosing metadata, documented if hide_undoc, procedure shows internals)
+   selected c t   ids the property selects (Spec: container selected, accessibility in the display inherited
+                  from the project / enclosing metadata — the file's included —, documented if hide_undoc,
+                  procedure shows internals; namelists are exempt from proc_internals, common blocks and
+                  final procedures have no accessibility, dummy arguments and common-block variables belong
+                  to their procedure / block)
    pages c t      ids in the project's page lists;  spec_pages c t  selected entities of a kind with a page
-   regular t      only lists that prune() filters occur (no enums, common blocks, namelists, final procedures),
-                  nothing is documented at the second place only
-   file_display_silent t   the file's own metadata carries no display words *)
+   regular t      every node sits in a list that FORD's objects of its parent's kind have, and
+                  entity.permission is the accessibility Fortran defines (property C04)
+   The six defects of the first version (enums, common blocks, namelists, final procedures never filtered;
+   a file's `display` not inherited; hide_undoc looking at the wrong comment of an interface block) are
+   repaired; their witnesses are kept as C05_fixed_* and replayed on the implementation by the harness. *)
 From Ford Require Import Base.Str Sem.Access Sem.Display Sem.DisplayProofs.
 
-(* The full statement: after pruning, exactly the selected entities are left.  FALSE of the code. *)
+(* The full statement: all configurations, all regular trees of any size and depth — after pruning exactly
+   the selected entities are left, in the same order. *)
 Definition C05_statement : Prop :=
-  forall c t, cfg_ok c = true -> is_file t = true -> well_kinded t = true ->
+  forall c t, cfg_ok c = true -> is_file t = true -> well_kinded t = true -> regular t = true ->
               kept_ids c t = selected c t.
 
-Theorem C05_statement_refuted : ~ C05_statement.
-Proof. exact full_statement_refuted. Qed.
-Print Assumptions C05_statement_refuted.
-
-(* all configurations, all regular trees of any size and depth: same ids, same order *)
-Theorem C05_prune_exact : forall c t,
-  cfg_ok c = true -> is_file t = true -> well_kinded t = true ->
-  regular t = true -> file_display_silent t = true ->
-  kept_ids c t = selected c t.
+Theorem C05_prune_exact : C05_statement.
 Proof. exact prune_exact. Qed.
 Print Assumptions C05_prune_exact.
 
 (* `__str__` and graph nodes link an entity only when its visible flag is set: never an unselected one *)
 Theorem C05_visible_sound : forall c t i,
-  cfg_ok c = true -> is_file t = true -> well_kinded t = true ->
-  regular t = true -> file_display_silent t = true ->
+  cfg_ok c = true -> is_file t = true -> well_kinded t = true -> regular t = true ->
   In i (visible_ids c t) -> In i (selected c t).
 Proof. exact visible_sound. Qed.
 Print Assumptions C05_visible_sound.
 
 (* the entities that get a page are the selected ones of a kind that has a page *)
 Theorem C05_pages : forall c t,
-  cfg_ok c = true -> is_file t = true -> regular t = true -> file_display_silent t = true ->
+  cfg_ok c = true -> is_file t = true -> well_kinded t = true -> regular t = true ->
   pages c t = spec_pages c t.
 Proof. exact pages_exact. Qed.
 Print Assumptions C05_pages.
 
 (* a `display` entry in an entity's metadata overrides what it inherited, for the entity's contents:
-   `none` hides everything below, recognised words replace, anything else leaves the inherited set *)
-Theorem C05_display_inherit : forall pd meta p,
+   `none` hides everything below (ignored on a source file), recognised words replace, anything else
+   leaves the inherited set *)
+Theorem C05_display_inherit : forall f pd meta p,
   none_alone pd ->
-  has_word (word_of_perm p) (disp_of false pd meta) = dset_has (spec_display false (dset_of pd) meta) p.
+  has_word (word_of_perm p) (disp_of f pd meta) = dset_has (spec_display f (dset_of pd) meta) p.
 Proof. exact display_inherit. Qed.
 Print Assumptions C05_display_inherit.
 
-(* ... except on a source file: `display: private` in the file's documentation changes nothing below *)
-Theorem C05_display_inherit_file_refuted : refutes (cfg_of [WPublic] true false) w_file 3 false 16.
-Proof. exact refuted_file_display. Qed.
-Print Assumptions C05_display_inherit_file_refuted.
+(* the hypothesis on permissions matters: a constructor interface that kept `public` beside its private type
+   is documented although it is not selected *)
+Theorem C05_constructor_permission_matters :
+  regular w_constructor = false /\
+  kept_ids (cfg_of [WPublic] true false) w_constructor = [1; 2; 4] /\
+  selected (cfg_of [WPublic] true false) w_constructor = [1; 2].
+Proof. exact constructor_permission_matters. Qed.
+Print Assumptions C05_constructor_permission_matters.
 
-(* lists that prune() never filters *)
-Theorem C05_refuted_enum : refutes (cfg_of [WPublic] true false) w_enum 3 true 1.
-Proof. exact refuted_enum. Qed.
-Print Assumptions C05_refuted_enum.
+(* former witnesses of repaired defects *)
+Theorem C05_fixed_enum :
+  agrees (cfg_of [WPublic] true false) w_enum /\ kept_ids (cfg_of [WPublic] true false) w_enum = [1; 2].
+Proof. exact fixed_enum. Qed.
+Print Assumptions C05_fixed_enum.
 
-Theorem C05_refuted_internals_enum : refutes (cfg_of [WPublic] false false) w_internals 5 true 1.
-Proof. exact refuted_internals_enum. Qed.
-Print Assumptions C05_refuted_internals_enum.
+Theorem C05_fixed_internals_enum :
+  agrees (cfg_of [WPublic] false false) w_internals /\ kept_ids (cfg_of [WPublic] false false) w_internals = [1; 2; 3].
+Proof. exact fixed_internals_enum. Qed.
+Print Assumptions C05_fixed_internals_enum.
 
-Theorem C05_refuted_common : refutes (cfg_of [WPublic; WProtected] true false) w_common 3 true 2.
-Proof. exact refuted_common. Qed.
-Print Assumptions C05_refuted_common.
+Theorem C05_fixed_common :
+  agrees (cfg_of [WPublic; WProtected] true false) w_common /\
+  kept_ids (cfg_of [WPublic; WProtected] true false) w_common = [1; 2].
+Proof. exact fixed_common. Qed.
+Print Assumptions C05_fixed_common.
 
-Theorem C05_refuted_namelist : refutes (cfg_of [WPublic] true false) w_namelist_module 4 true 4.
-Proof. exact refuted_namelist. Qed.
-Print Assumptions C05_refuted_namelist.
+Theorem C05_fixed_namelist :
+  agrees (cfg_of [WPublic] true false) w_namelist_module /\ agrees (cfg_of [WPublic] true false) w_namelist /\
+  pages (cfg_of [WPublic] true false) w_namelist = [2] /\ visible_ids (cfg_of [WPublic] true false) w_namelist = [1; 2].
+Proof. exact fixed_namelist. Qed.
+Print Assumptions C05_fixed_namelist.
 
-(* the namelist of a private procedure keeps its page and its visible flag *)
-Theorem C05_refuted_namelist_page :
-  existsb (Nat.eqb 5) (pages (cfg_of [WPublic] true false) w_namelist) = true /\
-  existsb (Nat.eqb 5) (visible_ids (cfg_of [WPublic] true false) w_namelist) = true /\
-  existsb (Nat.eqb 5) (selected (cfg_of [WPublic] true false) w_namelist) = false.
-Proof. exact namelist_page_refuted. Qed.
-Print Assumptions C05_refuted_namelist_page.
+Theorem C05_fixed_final :
+  agrees (cfg_of [WPublic] true true) w_final /\ kept_ids (cfg_of [WPublic] true true) w_final = [1; 2; 3].
+Proof. exact fixed_final. Qed.
+Print Assumptions C05_fixed_final.
 
-Theorem C05_refuted_final : refutes (cfg_of [WPublic] true true) w_final 4 true 8.
-Proof. exact refuted_final. Qed.
-Print Assumptions C05_refuted_final.
+Theorem C05_fixed_file_display :
+  agrees (cfg_of [WPublic] true false) w_file /\ kept_ids (cfg_of [WPublic] true false) w_file = [1; 2; 3].
+Proof. exact fixed_file_display. Qed.
+Print Assumptions C05_fixed_file_display.
 
-(* hide_undoc looks at the comment of the interface block, not at the comment of the procedure in it *)
-Theorem C05_refuted_doc_place : refutes (cfg_of [WPublic] true true) w_docplace 3 false 32.
-Proof. exact refuted_doc_place. Qed.
-Print Assumptions C05_refuted_doc_place.
+Theorem C05_fixed_doc_place :
+  agrees (cfg_of [WPublic] true true) w_docplace /\ kept_ids (cfg_of [WPublic] true true) w_docplace = [1; 2; 3].
+Proof. exact fixed_doc_place. Qed.
+Print Assumptions C05_fixed_doc_place.
